@@ -13,26 +13,37 @@ WMS = ((0, 0), (1, 2), (2, 2), (2, 1), (0, 1), (0, 3))
 def run(tier, seed):
     q = tier == "quick"
     inv = ["TypeOK", "Conserved", "ReadCbOnlyAboveLow", "InputNeverAboveHigh", "NoStall"]
+    fn = ("two", "one", "id")[seed % 3]
+    df = seed % 2 == 0
+    FW = lambda f, D: bc.consts("filt", WM | {"wmu"}, D, wms=WMS, durs=(0,), filtfn=f)
+    quick_gen = [
+        # exhaustive: also the bounded model check of the quick tier (invariants on every state of every history)
+        dict(name="C18_pair_exh", consts=bc.consts("pair", {"write", "enable", "loop", "wmr", "script"}, 3, sizes=(1, 3),
+                                                   drains=(0, 1), wms=((1, 2), (2, 1), (0, 1)), durs=(0,), script_until=1),
+             units=(1, 4096), invariants=inv),
+        dict(name="C18_pair_rand", consts=bc.consts("pair", WM | {"flush"}, 10, wms=WMS, durs=(0,),
+                                                    extras=("none", "wm0", "w1", "disR"), xkinds=("r",)), simulate=20, units=(1, 1000)),
+        dict(name="C18_filt_" + fn, consts=FW(fn, 9), simulate=15, units=(1, 1000)),
+        dict(name="C18_sock_" + ("def" if df else "imm"),
+             consts=bc.consts("sock", WM, 10, wms=WMS, durs=(0,), extras=("none", "wm0"), xkinds=("r",), defer=df),
+             simulate=20, units=(1, 512)),
+    ]
     plan = {
-        "mc": [("C18_mc_pair", bc.consts("pair", WM, 4 if q else 5, sizes=(1, 3), drains=(0, 1), wms=((0, 0), (1, 2), (2, 1)),
-                                         durs=(0,), script_until=1), inv)],
-        "gen": [
-            dict(name="C18_pair_exh", consts=bc.consts("pair", {"write", "enable", "loop", "wmr", "script"}, 3 if q else 4, sizes=(1, 3),
+        "mc": [] if q else [("C18_mc_pair", bc.consts("pair", WM, 5, sizes=(1, 3), drains=(0, 1), wms=((0, 0), (1, 2), (2, 1)),
+                                                      durs=(0,), script_until=1), inv)],
+        "gen": quick_gen if q else [
+            dict(name="C18_pair_exh", consts=bc.consts("pair", {"write", "enable", "loop", "wmr", "script"}, 4, sizes=(1, 3),
                                                        drains=(0, 1), wms=((1, 2), (2, 1), (0, 1)), durs=(0,), script_until=1),
                  units=(1, 4096)),
-            dict(name="C18_pair_rand", consts=bc.consts("pair", WM | {"flush"}, 10 if q else 14, wms=WMS, durs=(0,),
+            dict(name="C18_pair_rand", consts=bc.consts("pair", WM | {"flush"}, 14, wms=WMS, durs=(0,),
                                                         extras=("none", "wm0", "w1", "disR"), xkinds=("r",)),
-                 simulate=25 if q else 400, units=(1, 1000)),
-            dict(name="C18_filt_one", consts=bc.consts("filt", WM | {"wmu"}, 9 if q else 12, wms=WMS, durs=(0,), filtfn="one"),
-                 simulate=15 if q else 200, units=(1, 1000)),
-            dict(name="C18_filt_id", consts=bc.consts("filt", WM | {"wmu"}, 9 if q else 12, wms=WMS, durs=(0,), filtfn="id"),
-                 simulate=15 if q else 200, units=(1,)),
-            dict(name="C18_filt_two", consts=bc.consts("filt", WM | {"wmu"}, 9 if q else 12, wms=WMS, durs=(0,), filtfn="two"),
-                 simulate=10 if q else 200, units=(1,)),
-            dict(name="C18_sock_imm", consts=bc.consts("sock", WM, 10 if q else 14, wms=WMS, durs=(0,), extras=("none", "wm0"),
-                                                       xkinds=("r",)), simulate=25 if q else 300, units=(1, 512)),
-            dict(name="C18_sock_def", consts=bc.consts("sock", WM, 10 if q else 14, wms=WMS, durs=(0,), defer=True),
-                 simulate=15 if q else 300, units=(1,)),
+                 simulate=400, units=(1, 1000)),
+            dict(name="C18_filt_one", consts=FW("one", 12), simulate=200, units=(1, 1000)),
+            dict(name="C18_filt_id", consts=FW("id", 12), simulate=200, units=(1,)),
+            dict(name="C18_filt_two", consts=FW("two", 12), simulate=200, units=(1,)),
+            dict(name="C18_sock_imm", consts=bc.consts("sock", WM, 14, wms=WMS, durs=(0,), extras=("none", "wm0"),
+                                                       xkinds=("r",)), simulate=300, units=(1, 512)),
+            dict(name="C18_sock_def", consts=bc.consts("sock", WM, 14, wms=WMS, durs=(0,), defer=True), simulate=300, units=(1,)),
         ],
         "monitor_by_kind": {k: bc.mon_c18(k) for k in ("pair", "filt", "sock")},
         "need": ["write", "wm", "cb:r", "cb:w"],
